@@ -133,7 +133,7 @@ def run_case(case):
     n1, n2 = rng.randint(0, 4), rng.randint(0, 4)
     x0 = rng.randrange(p)
     xs = rng.randrange(p)
-    e0 = rng.choice([0, 1, 2, 3, 5, -1, -2])
+    e0 = int(case['e0']) if 'e0' in case else rng.choice([0, 1, 2, 3, 5, -1, -2])
     # every random choice is drawn HERE (plan() runs once per party and must not consume randomness)
     d_rev = rng.randint(-1, len(PA) + 2)
     ds_rev = rng.randint(-1, len(PA) - 1) if len(PA) >= 1 else None
@@ -416,6 +416,14 @@ def make_cases(ctx, extra):
                     cases.append({'group': group, 'p': p, 'm': m, 'no_prss': np_, 'seed': rng.randrange(1 << 30)})
     for name in sorted(DIRECTED):
         cases.append({'directed': name, 'group': 'directed', 'p': DIRECTED[name][1], 'm': 3, 'no_prss': False, 'seed': 1})
+    # length bounds are not degrees: a SHORT dividend (no slack) of degree >= the true degree of a modulus with secret leading
+    # zeros (long length bound) must still be reduced by mod / powmod / % / divmod
+    for p, PA, PB, e0 in ((101, [1, 2, 3], [2, 1, 0, 0], 2), (101, [1, 1], [2, 1, 0, 0, 0, 0], 3), (31, [5, 0, 1], [7, 1, 0, 0], 2),
+                          (2**31 - 1, [3, 4, 5, 6], [9, 1, 1, 0, 0, 0], 4), (101, [1, 1], [2, 1, 0, 0, 0, 0], 2)):
+        for group in ('divmod', 'invpow'):
+            for (m, np_) in ((1, False), (3, False)):
+                cases.append({'group': group, 'p': p, 'm': m, 'no_prss': np_, 'seed': rng.randrange(1 << 30),
+                              'PA': PA, 'PB': PB, 'e0': e0})
     for _ in range(extra):
         m, np_ = rng.choice(CONFIGS + [(3, False), (3, True)])
         g, p = rng.choice(GROUPS), rng.choice(PRIMES)
